@@ -908,6 +908,36 @@ func genShortSections(r *Repo, w *loopWalker, files map[string]*ast.File, fds ma
 			if _, err := sw.block(fd.Body.List, map[string]bool{}); err != nil {
 				return err
 			}
+			// a function literal that locks (e.g. `x, ok := func() { mu.Lock(); defer mu.Unlock(); ... }()`) is a critical
+			// section of the enclosing function: its body is walked on its own, from "nothing held"
+			var lits []*ast.FuncLit
+			ast.Inspect(fd.Body, func(x ast.Node) bool {
+				if fl, ok := x.(*ast.FuncLit); ok {
+					direct := false
+					for _, st := range fl.Body.List {
+						ast.Inspect(st, func(y ast.Node) bool {
+							if _, nested := y.(*ast.FuncLit); nested {
+								return false
+							}
+							if c, ok := y.(*ast.CallExpr); ok {
+								if mu, _ := lockOp(c); mu != "" {
+									direct = true
+								}
+							}
+							return true
+						})
+					}
+					if direct {
+						lits = append(lits, fl)
+					}
+				}
+				return true
+			})
+			for _, fl := range lits {
+				if _, err := sw.block(fl.Body.List, map[string]bool{}); err != nil {
+					return err
+				}
+			}
 			for _, mu := range sw.ord {
 				s := sw.secs[mu]
 				rows = append(rows, fmt.Sprintf("  (%s, %s, %s)", CoqString(s.mu), CoqString(s.fn), coqStrList(s.calls)))
